@@ -46,10 +46,10 @@ func init() {
 }
 
 type Effects struct {
-	p         *Program
-	m         map[*ssa.Function]effectSet
-	Unknown   map[*ssa.Function][]string // calls that could not be resolved / bodies missing
-	paramIdx  map[*ssa.Parameter]int
+	p        *Program
+	m        map[*ssa.Function]effectSet
+	Unknown  map[*ssa.Function][]string // calls that could not be resolved / bodies missing
+	paramIdx map[*ssa.Parameter]int
 }
 
 var effectsCache = map[*Program]*Effects{}
